@@ -229,12 +229,25 @@ class Gen:
         return self.lit(cls)
 
     def ewise(self, tv: TV, cls: str, depth: int, kinds=("ewise",), mul_ok=True):
+        """element-wise expression; constant-only operator calls are avoided (engine finding D51)"""
+        from .triggers import _has_col, _walk
+
+        for _ in range(4):
+            e = self._ewise(tv, cls, depth, kinds, mul_ok)
+            bad = []
+            _walk(e, lambda d: bad.append(1) if ("fn" in d and d.get("args") and not _has_col(d)) or ("case" in d and not _has_col(d))
+                  or ("cast" in d and not _has_col(d)) else None)
+            if not bad:
+                return e
+        return self.leaf(tv, cls, kinds)
+
+    def _ewise(self, tv: TV, cls: str, depth: int, kinds=("ewise",), mul_ok=True):
         """element-wise expression of class `cls` over columns of `kinds`"""
         r = self.rng
         if depth <= 0 or r.random() < 0.25:
             return self.leaf(tv, cls, kinds)
         d = depth - 1
-        E = lambda c, **k: self.ewise(tv, c, d, kinds, **k)  # noqa: E731
+        E = lambda c, **k: self._ewise(tv, c, d, kinds, **k)  # noqa: E731
         if cls == "int":
             k = r.choice(["add", "sub", "mul", "neg", "abs", "floordiv", "mod", "fill_null", "hmax", "hmin", "hsum",
                           "coalesce", "clip", "case", "cast_bool", "str_len", "add_bool", "pos"])
@@ -934,3 +947,103 @@ def gen_program(seed: int, profile="general", n_verbs=None, max_rows=10, exports
     p = g.program()
     meta = dict(features=sorted(g.features), ops=sorted(g.ops_used), verbs=[s["op"] for s in g.stmts], final=cur.tid)
     return p, meta
+
+
+# ---------------------------------------------------------------------------------------------
+# Scenario programs: skeletons aimed at mechanisms that random composition reaches rarely
+# (hidden-name collisions across a join or a subquery, a summarize overwriting a grouping column).
+# Data, column choice and the surrounding verbs are still drawn from the seed.
+def _scenario(seed: int, kind: str):
+    g = Gen(seed, max_rows=8, profile=kind)
+    r = g.rng
+
+    def table(name, cols, nrows=None):
+        nrows = nrows if nrows is not None else r.choice([3, 5, 8])
+        cs = [dict(name="id", dtype="int64", vals=g.shuffled(list(range(1, nrows + 1))))]
+        for n, cls in cols:
+            cs.append(dict(name=n, dtype={"int": "int64", "string": "string", "bool": "bool"}[cls],
+                           vals=g.gen_values(cls, nrows, r.choice([0.0, 0.3]), dup_heavy=True)))
+        g.tables.append(dict(name=name, cols=cs))
+        tid = g.fresh_t()
+        tv = TV(tid=tid, sources={tid}, nrows_hint=nrows)
+        for c in cs:
+            cid = g.new_cid()
+            cls = {"int64": "int", "string": "string", "bool": "bool"}[c["dtype"]]
+            tv.scope[cid] = ColInfo(cid, cls, c["name"] != "id", [(tid, c["name"])], unique=(c["name"] == "id"))
+            tv.visible.append((c["name"], cid))
+            if c["name"] == "id":
+                tv.keys = [cid]
+        g.stmts.append(dict(id=tid, op="source", table=name))
+        g.tvs[tid] = tv
+        return tv
+
+    def S(**kw):
+        g.stmts.append(kw)
+        return kw["id"]
+
+    if kind == "scen_join_hidden":
+        a = table("src0", [("x", "int"), ("a", "int")])
+        b = table("src1", [("x", "int"), ("b", "int")])
+        hide = r.choice(["drop", "overwrite", "select"])
+        l, rr = g.fresh_t(), g.fresh_t()
+        if hide == "drop":
+            S(id=l, op="drop", src=a.tid, cols=[{"col": [a.tid, "x"]}])
+            S(id=rr, op="drop", src=b.tid, cols=["x"])
+        elif hide == "select":
+            S(id=l, op="select", src=a.tid, cols=["id", "a"])
+            S(id=rr, op="select", src=b.tid, cols=[{"col": [b.tid, "id"]}, {"col": [b.tid, "b"]}])
+        else:
+            S(id=l, op="mutate", src=a.tid, cols=[["x", {"fn": "add", "args": [{"col": [a.tid, "a"]}, {"lit": 100}]}]])
+            S(id=rr, op="mutate", src=b.tid, cols=[["x", {"fn": "sub", "args": [{"col": [b.tid, "b"]}, {"lit": 100}]}]])
+        j = g.fresh_t()
+        how = r.choice(["inner", "left", "inner"])
+        on = [{"fn": "equal", "args": [{"col": [l, "id"]}, {"col": [rr, "id"]}]}]
+        if r.random() < 0.3 and how != "full":
+            on.append({"fn": "less_equal", "args": [{"col": [l, "a"]}, {"fn": "add", "args": [{"col": [rr, "b"]}, {"lit": 1000}]}]})
+        S(id=j, op="join", src=l, right=rr, on=on, how=how)
+        m = g.fresh_t()
+        S(id=m, op="mutate", src=j, cols=[["p_left", {"col": [a.tid, "x"]}], ["p_right", {"col": [b.tid, "x"]}],
+                                         ["p_sum", {"fn": "add", "args": [{"col": [b.tid, "x"]}, {"col": [a.tid, "x"]}]}]])
+        f = g.fresh_t()
+        S(id=f, op="arrange", src=m, by=[{"col": [a.tid, "id"]}])
+        S(id="x1", op="export", src=f, target="polars", ordered=(how == "inner"))
+    elif kind == "scen_subq_hidden":
+        a = table("src0", [("a", "int"), ("b", "int"), ("s", "string")])
+        t1, t2, t3, t4, t5, t6 = (g.fresh_t() for _ in range(6))
+        S(id=t1, op="mutate", src=a.tid, cols=[["a", {"fn": "add", "args": [{"col": [a.tid, "a"]}, {"lit": 7}]}]])
+        if r.random() < 0.5:
+            S(id=t2, op="rename", src=t1, map=[["b", "bb"], ["s", "b"]])
+        else:
+            S(id=t2, op="mutate", src=t1, cols=[["b", {"fn": "neg", "args": [{"col": [a.tid, "b"]}]}]])
+        S(id=t3, op="arrange", src=t2, by=[{"col": [a.tid, "id"]}])
+        S(id=t4, op="slice_head", src=t3, n=r.choice([2, 3, 100]), offset=r.choice([0, 1]))
+        S(id=t5, op="alias", src=t4, keep_col_refs=True)
+        S(id=t6, op="filter", src=t5, preds=[{"fn": "greater_than", "args": [{"col": [a.tid, "id"]}, {"lit": 0}]}])
+        t7 = g.fresh_t()
+        S(id=t7, op="mutate", src=t6, cols=[["old_a", {"col": [a.tid, "a"]}], ["new_a", {"c": "a"}], ["old_b", {"col": [a.tid, "b"]}]])
+        S(id="x1", op="export", src=t7, target="polars", ordered=True)
+    elif kind == "scen_summarize_key":
+        a = table("src0", [("a", "int"), ("b", "string"), ("x", "int")])
+        t1, t2 = g.fresh_t(), g.fresh_t()
+        keys = r.choice([["a", "b"], ["b", "a"], ["a"]])
+        S(id=t1, op="group_by", src=a.tid, cols=[{"col": [a.tid, k]} for k in keys])
+        ow = r.choice(keys)
+        cols = [[ow, {"fn": "sum", "args": [{"col": [a.tid, "x"]}]}], ["n", {"fn": "count_star", "args": []}]]
+        if r.random() < 0.5:
+            cols.reverse()
+        S(id=t2, op="summarize", src=t1, cols=cols)
+        S(id="x1", op="export", src=t2, target="polars", ordered=False)
+    else:
+        raise ValueError(kind)
+    p = g.program()
+    meta = dict(features=[kind], ops=[], verbs=[s["op"] for s in g.stmts], final="x1")
+    return p, meta
+
+
+_orig_gen_program = gen_program
+
+
+def gen_program(seed: int, profile="general", **kw):  # noqa: F811
+    if profile.startswith("scen_"):
+        return _scenario(seed, profile)
+    return _orig_gen_program(seed, profile, **kw)
